@@ -291,14 +291,43 @@ def float_cmp(a: str, b: str, rtol=1e-9, atol=1e-12):
     return "drift" if drift else "eq"
 
 
-def lockstep(corr: Corr, cases, canon_model=None, cmp=None):
+def _driver_shards(cases, shards):
+    """run the cases through `shards` driver processes in parallel (cases are independent:
+    every case starts with a `new` line); returns the concatenated output lines"""
+    from concurrent.futures import ThreadPoolExecutor
+    ok, log = lake_build(["AdaptiveModel"])
+    if not ok:
+        raise DriverError("model library does not build:\n" + log[-2000:])
+    n = len(cases)
+    shards = max(1, min(shards, n))
+    bounds = [(n * k // shards, n * (k + 1) // shards) for k in range(shards)]
+
+    def one(b):
+        lines = [l for c in cases[b[0]:b[1]] for l in c["lines"]]
+        if not lines:
+            return []
+        rc, out, err, dt = sh(["lake", "env", "lean", "--run", "Driver.lean"], cwd=LEAN, timeout=3000,
+                              inp="\n".join(lines) + "\n")
+        if rc != 0:
+            raise DriverError(f"driver exited {rc}: {err[-2000:]}")
+        res = out.splitlines()
+        if len(res) != len(lines):
+            raise DriverError(f"driver returned {len(res)} lines for {len(lines)} inputs: {err[-500:]}")
+        return res
+
+    with ThreadPoolExecutor(shards) as ex:
+        parts = list(ex.map(one, bounds))
+    return [l for p in parts for l in p]
+
+
+def lockstep(corr: Corr, cases, canon_model=None, cmp=None, shards=1):
     """cases: list of dicts {'lines': [...], 'impl': [...], 'meta': …}.  Runs all lines of
-    all cases through the driver (one process) and diffs line by line."""
-    all_lines = []
-    for c in cases:
-        all_lines += c["lines"]
+    all cases through the driver and diffs line by line."""
     try:
-        outs = run_driver(all_lines)
+        if shards > 1:
+            outs = _driver_shards(cases, shards)
+        else:
+            outs = run_driver([l for c in cases for l in c["lines"]])
     except DriverError as e:
         corr.error = str(e)
         return corr
@@ -322,11 +351,23 @@ def lockstep(corr: Corr, cases, canon_model=None, cmp=None):
             if a != b:
                 if len(corr.disagreements) < 50:
                     corr.disagreements.append(
-                        {"case": ci, "index": k, "line": c["lines"][k], "impl": a, "model": b,
-                         "lines": c["lines"][: k + 1], "meta": c.get("meta")}
+                        {"case": ci, "index": k, "line": c["lines"][k][:2000], "impl": a[:4000], "model": b[:4000],
+                         "lines": (c["lines"][: k + 1] if sum(map(len, c["lines"][: k + 1])) < 200000 else None),
+                         "meta": c.get("meta")}
                     )
                 break
     return corr
+
+
+def pmap(fn, items, procs=None):
+    """process-parallel map (fork) for running the real code on many generated cases"""
+    import multiprocessing as mp
+    procs = procs or min(16, os.cpu_count() or 1)
+    if procs <= 1 or len(items) < 4:
+        return [fn(x) for x in items]
+    ctx = mp.get_context("fork")
+    with ctx.Pool(procs) as pool:
+        return pool.map(fn, items, chunksize=max(1, len(items) // (procs * 4)))
 
 
 # ---------------------------------------------------------------- known findings
@@ -449,8 +490,9 @@ def conclude(ctx: Ctx, proof: Proof | None, corrs, failures, *, level="proof", r
         "wall_s": round(time.time() - ctx.t0, 2),
         "violations": violations,
     }
-    (VERIF / "evidence").mkdir(exist_ok=True)
-    (VERIF / "evidence" / f"{prop}.json").write_text(json.dumps(ev, indent=1, default=str) + "\n")
+    evdir = Path(os.environ.get("VERIF_EVIDENCE_DIR", VERIF / "evidence"))  # redirected only when trying seeded changes
+    evdir.mkdir(exist_ok=True, parents=True)
+    (evdir / f"{prop}.json").write_text(json.dumps(ev, indent=1, default=str) + "\n")
     print(f"[{prop}] tier={ctx.tier} seed={ctx.seed} proof_ok={proof.ok if proof else None} "
           f"corr_ok={[c.ok for c in corrs]} failures={len(failures)} known={len(known_hit)} "
           f"violations={violations} wall={ev['wall_s']}s")
